@@ -1213,7 +1213,7 @@ def register():
             GENS[k[4:]] = v
 
 
-HUGE_PIDS = {"C01", "C02", "C03", "C08", "C09", "C10"}
+HUGE_PIDS = {"C01", "C02", "C03", "C06", "C07", "C08", "C09", "C10", "C13"}
 
 
 def gen_huge(pid, tier, seed):
@@ -1269,6 +1269,21 @@ def gen_huge(pid, tier, seed):
                 wc, wr = w[2] - w[0], w[3] - w[1]
                 if 0 < wc and 0 < wr and w[2] <= C and w[3] <= R:
                     lines += [f"@v({s_})v(0,{wr // 2},{wc},{wr}) size", f"@v({s_})w(0,1,{wc},{wr}) rows l,N{wr},l"]
+        small_c = C <= 64
+        if pid in ("C01", "C13") and small_c:
+            for a in args(R)[:10] + [R - 1, R]:
+                lines += [f"@ swap_rows 0 {a}", f"@ swap_rows {a} {a}", f"@ swap 0 0 {C - 1} {a}", f"@ row_pair {a} 0", f"@x swap_rows {a} 1"]
+                if R > 8:
+                    lines += [f"@v(0,1,{C},{R}) swap_rows 0 {a}", f"@v(0,1,{C},{R}) size"]
+        if pid in ("C01", "C07") and small_c:
+            for a in args(R)[:10] + [R - 1, R]:
+                lines += [root, f"@ remove_row {a} n,l,b,l drop", "@ size"]
+            lines += [root, "@ pop_row n,l drop", "@ size", "@ pop_row - drop", "@ size", "@ rows l,B0,l"]
+        if pid in ("C01", "C06") and small_c:
+            items = fl(uniq(C, 5))
+            for a in args(R)[:10] + [R - 1, R, R + 1]:
+                lines += [root, f"@ insert_row {a} {C} {items}", "@ size"]
+            lines += [root, f"@ push_row {C} {items}", "@ size", f"@ push_row {C} {items}", "@ size", "@ swap_dimensions", "@ size", "@ clear", "@ size"]
         b.case("unit", lines)
     return b.cases
 
